@@ -469,3 +469,18 @@ func CheckConformance(f *Frame, cfg WriterConfig, input []byte, total int) [][2]
 	}
 	return bad
 }
+
+// ParsePrefix parses b as the beginning of a frame that has been flushed but
+// not closed: header and complete blocks, ending exactly on a block boundary
+// (no end mark yet).  It returns the decoded content so far.  A complete
+// frame is accepted as well (closed == true).
+func ParsePrefix(b []byte, o ParseOpts) (f *Frame, closed bool, err error) {
+	f, err = ParseFrame(b, o)
+	if err == nil {
+		return f, !f.Legacy, nil
+	}
+	if fe, ok := err.(*FrameError); ok && fe.Kind == ErrTruncated && fe.Off == len(b) && fe.Msg == "input ends inside block size" {
+		return f, false, nil
+	}
+	return f, false, err
+}
